@@ -343,7 +343,7 @@ func (f *OrefaFile) ReadDir(n int) ([]fs.DirEntry, error) {
 
 	f.dirIndex = end
 
-	return f.dirEntries[start:end], nil
+	return f.dirEntries[start:end:end], nil
 }
 
 // Readdirnames reads and returns a slice of names from the directory f.
@@ -420,7 +420,7 @@ func (f *OrefaFile) Readdirnames(n int) (names []string, err error) {
 
 	f.dirIndex = end
 
-	return f.dirNames[start:end], nil
+	return f.dirNames[start:end:end], nil
 }
 
 // Seek sets the offset for the next Read or Write on file to offset, interpreted
